@@ -155,10 +155,6 @@ func TestVerif_C17_body(t *testing.T) {
 		}
 		if r.Intn(5) == 0 {
 			multipartOn = true
-			req.EnableForceMultipart()
-			if r.Intn(2) == 0 {
-				files = append(files, c17GenFile(r, req, t.TempDir(), i, false, b, true))
-			}
 			// multipart field names must be carriable by a header (stdlib writes them raw)
 			for _, k := range append(append([]string{}, rq.keys...), cl.keys...) {
 				if k == "" || c17HasUnsafe(k) {
@@ -168,10 +164,11 @@ func TestVerif_C17_body(t *testing.T) {
 			if len(cl.keys) > 0 && len(pairs) > 0 {
 				multipartOn = false // one class of known finding per case
 			}
-			if !multipartOn {
-				req.DisableForceMultipart()
-				req.uploadFiles = nil
-				files = nil
+			if multipartOn {
+				req.EnableForceMultipart()
+				if r.Intn(2) == 0 {
+					files = append(files, c17GenFile(r, req, t.TempDir(), i, false, b, true))
+				}
 			}
 		}
 		odd := len(ordArgs)%2 == 1
